@@ -63,7 +63,7 @@ def bounded(check, tier):
               "join of every item list of length <=3 over {run-less, '', 'ab', 1-run, 2-run} (and <=4 in thorough)",
               bound="runs<=2, items<=%d" % (4 if deep else 3))
     small = [mk(l) for l in layouts(2, 2)]
-    strs = ["", "x", "xy", "\x1b[1mz", "x\ud83d\ude00y", "caf\udce9", "\ufeffab", "\x00"]      # (a str operand is text, whatever it contains)
+    strs = ["", "x", "xy", "\x1b[1mz", "x\ud83d\ude00y", "caf\udce9", "\ufeffab", "\x00", "c\td", "\tq\x0b"]      # (a str operand is text, whatever it contains)
     for f in small:
         for g in small:
             s.contract_case(F.add, dict(self=f, other=g))
